@@ -285,13 +285,17 @@ type space struct {
 	wss            []int
 	allSplits      bool
 	keep           func(seq []Elem, ws int, nLines int) bool
+	explicit       [][]Elem // when set: exactly these element sequences instead of all sequences over elems
 }
 
 func headers(elems []Elem, minLen, maxLen int, wss []int, allSplits bool, keep func(seq []Elem, ws int, nLines int) bool) space {
-	return space{elems, minLen, maxLen, wss, allSplits, keep}
+	return space{elems, minLen, maxLen, wss, allSplits, keep, nil}
 }
 
 func (s *space) n() int {
+	if s.explicit != nil {
+		return len(s.explicit)
+	}
 	total, p := 0, 1
 	for l := 0; l <= s.maxLen; l++ {
 		if l >= s.minLen {
@@ -303,6 +307,9 @@ func (s *space) n() int {
 }
 
 func (s *space) seq(i int) []Elem {
+	if s.explicit != nil {
+		return s.explicit[i]
+	}
 	p := 1
 	for l := 0; l < s.minLen; l++ {
 		p *= len(s.elems)
@@ -574,8 +581,9 @@ func handlerSweep(r *report.R, name string, configs []Case, hs []hdr) {
 
 // rawSpace: verbatim header values, enumerated lazily.
 type rawSpace struct {
-	alpha  []string
-	l1, l2 int // one line of length <= l1; l2 >= 0: a second line of length <= l2
+	alpha    []string
+	l1, l2   int        // one line of length <= l1; l2 >= 0: a second line of length <= l2
+	explicit [][]string // when set: exactly these header-line lists
 }
 
 func nStrings(k, maxLen int) int {
@@ -603,6 +611,9 @@ func nthString(alpha []string, i int) string {
 }
 
 func (s rawSpace) n() int {
+	if s.explicit != nil {
+		return len(s.explicit)
+	}
 	n := nStrings(len(s.alpha), s.l1)
 	if s.l2 >= 0 {
 		n *= nStrings(len(s.alpha), s.l2)
@@ -611,6 +622,9 @@ func (s rawSpace) n() int {
 }
 
 func (s rawSpace) value(i int) []string {
+	if s.explicit != nil {
+		return s.explicit[i]
+	}
 	if s.l2 < 0 {
 		return []string{nthString(s.alpha, i)}
 	}
@@ -742,13 +756,16 @@ func main() {
 	if thorough {
 		inS1["1"], inS1["0.50"] = true, true
 	}
-	// every spelling denotes 0, 0.001, 0.1000000000000000001, 0.111..1 (64 digits), 0.25, 0.5, 0.9 or 1
+	// the spellings denote 0, 0.001, 0.1000000000000000001, 0.111..1 (64 digits), 0.25, 0.5, 0.9, 1 and the edge values listed at the end
 	qFull := []string{"", "0", "0.", "0.0", "0.000", "0.001", "0.25", "0.5", "0.50", "0.500", "0.5000", "0.9", "1", "1.", "1.0", "1.000",
 		"0.5" + rep("0", 16), "0.5" + rep("0", 17), // 17 and 18 digits
 		"0.5" + rep("0", 18), "0.9" + rep("0", 18), "0.1" + rep("0", 17) + "1", "0.001" + rep("0", 16), // 19 digits
 		"0.5" + rep("0", 19), "0.5" + rep("0", 63), "0.9" + rep("0", 69), // 20, 64, 70 digits
 		"0." + rep("0", 19), "0." + rep("0", 64), "1." + rep("0", 19), "1." + rep("0", 64),
-		"0." + rep("1", 64)} // 0.111..1: on the pinned tree n/0 = +Inf
+		"0." + rep("1", 64), // 0.111..1: on the pinned tree n/0 = +Inf
+		// digits beyond the third matter; positive values below 0.001; differences of 1e-10 / 1e-11; digit strings at integer bounds
+		"0.9991", "0.9999", "0.5001", "0.5009", "0.0005", "0.0009", "0.50000000001", "0.50000000002", "0.00000000001", "0.999999999",
+		"0.2147483647", "0.2147483648", "0.9007199254740993", "0.9223372036854775807", "0.9223372036854775808"}
 	q12 := []string{"", "0", "0.5", "0.50", "0.9", "1.0", "0.001", "0.5" + rep("0", 17), "0.5" + rep("0", 18), "0.5" + rep("0", 63), "0." + rep("0", 64), "1." + rep("0", 64), "0." + rep("1", 64)}
 	r.Set("q_spellings", map[string]any{"select": q6, "full": qFull})
 	r.Set("offer_alphabet", offers5)
@@ -820,7 +837,7 @@ func main() {
 	for _, ol := range offerLists([]string{"gzip", "br", "identity"}, 3) {
 		encOffers = append(encOffers, ol.raw)
 	}
-	qEnc := []string{"", "0", "0.5", "0.9", "0.50", "0.5" + rep("0", 18), "0.5" + rep("0", 63), "0." + rep("0", 64), "0." + rep("1", 64)}
+	qEnc := []string{"", "0", "0.5", "0.9", "0.50", "0.5" + rep("0", 18), "0.5" + rep("0", 63), "0." + rep("0", 64), "0." + rep("1", 64), "0.0005", "0.5001", "0.5009"}
 	if !thorough {
 		encodingSweep(r, "encoding", true, headers(elemProduct(codings, qEnc, none, none), 0, 2, []int{1}, false, nil), encOffers)
 		encodingSweep(r, "encoding-3-codings", false, headers(elemProduct(codings, []string{"", "0", "0.5"}, none, none), 3, 3, []int{0}, false, nil), encOffers)
@@ -862,6 +879,9 @@ func main() {
 		s2 = headers(elemProduct(ranges5, []string{"", "0", "0.5"}, [][]string{nil, {"level=1"}}, none), 2, 2, []int{0, 2, 3}, true, nil)
 	}
 	hh = append(append(hh, s1.expand()...), s2.expand()...)
+	// q values whose digits beyond the third matter, positive values below 0.001
+	sq := headers(elemProduct([]string{"a/b", "c/d", "*/*"}, []string{"0.0005", "0.5001", "0.5009"}, none, none), 1, 2, []int{1}, false, nil)
+	hh = append(hh, sq.expand()...)
 	// verbatim values through the handler: totality of the whole chain
 	for _, s := range enum.Strings([]string{"a", "/", "*", ";", ",", "=", "q", "0", "\"", " ", "\xe9"}, 3) {
 		hh = append(hh, hdr{lines: [][]Elem{{{Range: s}}}, ws: -1})
@@ -874,24 +894,31 @@ func main() {
 	// wide alphabet: octets outside US-ASCII (0x80, 0xFF, a two-byte UTF-8 character), controls, other separators
 	wide := append(append([]string{}, alpha...), "\x80", "\xff", "\u00e9", "\t")
 	if !thorough {
-		rawSweep(r, "raw-bytes", rawSpace{alpha, 5, -1})
-		rawSweep(r, "raw-two-lines", rawSpace{alpha, 2, 2})
+		rawSweep(r, "raw-bytes", rawSpace{alpha: alpha, l1: 5, l2: -1})
+		rawSweep(r, "raw-two-lines", rawSpace{alpha: alpha, l1: 2, l2: 2})
 		r.Set("raw_alphabet_wide", wide)
-		rawSweep(r, "raw-bytes-wide", rawSpace{wide, 4, -1})
+		rawSweep(r, "raw-bytes-wide", rawSpace{alpha: wide, l1: 4, l2: -1})
 	} else {
-		rawSweep(r, "raw-bytes", rawSpace{alpha, 6, -1})
-		rawSweep(r, "raw-two-lines", rawSpace{alpha, 3, 2})
+		rawSweep(r, "raw-bytes", rawSpace{alpha: alpha, l1: 6, l2: -1})
+		rawSweep(r, "raw-two-lines", rawSpace{alpha: alpha, l1: 3, l2: 2})
 		wide = append(wide, "(", "A", "\x00", "\r", "\n")
 		r.Set("raw_alphabet_wide", wide)
-		rawSweep(r, "raw-bytes-wide", rawSpace{wide, 4, -1})
+		rawSweep(r, "raw-bytes-wide", rawSpace{alpha: wide, l1: 4, l2: -1})
 	}
+
+	// edge atoms as verbatim bytes: controls, DEL, invalid UTF-8, runes beyond the BMP, U+FEFF, U+2028, text that looks like syntax
+	edgeAtoms := []string{"a", "/", ";", "=", "q", "0", ",", "\"", "\x00", "\x7f", "\r", "\n", "\t", "\xff", "\u00e9", "\U0001F600", "\ufeff", "\u2028",
+		"%", "%s", "{", "}", "..", ":", "#", "?", "&", "+", "[", "]", "(", "A"}
+	r.Set("raw_alphabet_edge_atoms", edgeAtoms)
+	rawSweep(r, "raw-edge-atoms", rawSpace{alpha: edgeAtoms, l1: 3, l2: -1})
+	edgeSweeps(r, defs)
 
 	// the largest sweep last: a budget cut then leaves the other sweeps complete
 	s3()
 	r.Set("completed_all_sweeps", !budgetCut.Load())
 
 	r.Assume("the reference negotiation of props/c07/model.go is the meaning of the property text: score of an offer = maximum over the matching ranges of positive q of (exact rational q, specificity), first offer of maximal score wins, default when no offer has a score, first offer without header",
-		"a range carrying media-type parameters is judged under both readings (parameters ignored / must equal the offer's parameters); q spellings outside (0|1)[.digits], q above 1, distinct q values closer than 1e-9, an Accept header without any range and Accept-Encoding corner cases (no header, coding refused by name but admitted by *) are judged for totality and membership only",
+		"a range carrying media-type parameters is judged under both readings (parameters ignored / must equal the offer's parameters); q spellings outside (0|1)[.digits], q above 1, distinct q values closer than 1e-12, an Accept header without any range and Accept-Encoding corner cases (no header, coding refused by name but admitted by *) are judged for totality and membership only",
 		"handler level: the declared media types are a/b, a/c, c/d without parameters and a producer is registered for each; the offer order is the one the running instance holds (go-openapi/analysis returns the declared list in map order), read from the matched route")
-	r.Finish("every abstract header of the stated element alphabets and lengths x whitespace variants x line splits x every ordered offer list (with duplicates) up to the stated length x default present/absent, each negotiated by the real code and compared with the reference; every byte string up to the stated length as a verbatim header value for totality and membership; every API configuration x header through the real API handler. One evaluation = one call of NegotiateContentType, Context.ResponseFormat, NegotiateContentEncoding, ParseAccept, ParseAccept2, ParseList, ParseValueAndParams, Context.BindValidRequest or one request through the handler. Both parsers are judged on every structured header: the reference negotiation over the specs they return must choose what the header admits, and their q values must be ordered as the numbers written. Non-trivial = the oracle was fully decisive and the mechanism was reached: structured header in which at least one range matches at least one offer (type/format/encoding), every fully judged request (handler), at least one range parsed (raw), every step executed after another step of its sequence (history). Long headers: 31..1000 ranges of which one decides, at the end, in the middle or first, on one or many header lines, through all entry points. History dimension: every ordered pair (thorough: also every ordered triple of a 78-case sub-alphabet without handler steps) of a 198-case collision alphabet (header-line lists that share lines, same header and offers with different defaults, same header with different offers, the four entry points), plus the whole list forward and backward, each sequence executed in one process under its own neutral salt range and on one shared API instance per configuration; each step must give exactly what it gives when run alone. The sweeps are disjoint by construction (filters notInS1 / withParams, distinct entry points, renderings deduplicated by text), so no (entry point, header text, offers, default) tuple is evaluated twice", !budgetCut.Load())
+	r.Finish("every abstract header of the stated element alphabets and lengths x whitespace variants x line splits x every ordered offer list (with duplicates) up to the stated length x default present/absent, each negotiated by the real code and compared with the reference; every byte string up to the stated length as a verbatim header value for totality and membership; every API configuration x header through the real API handler. One evaluation = one call of NegotiateContentType, Context.ResponseFormat, NegotiateContentEncoding, ParseAccept, ParseAccept2, ParseList, ParseValueAndParams, Context.BindValidRequest or one request through the handler. Both parsers are judged on every structured header: the reference negotiation over the specs they return must choose what the header admits, and their q values must be ordered as the numbers written. Non-trivial = the oracle was fully decisive and the mechanism was reached: structured header in which at least one range matches at least one offer (type/format/encoding), every fully judged request (handler), at least one range parsed (raw), every step executed after another step of its sequence (history). Edge values: q with digits beyond the third that matter, positive q below 0.001, q differing by 1e-10, digit strings at integer bounds; type and parameter names with . - +, prefix / case-only differing names, 2000-byte subtypes, quoted values with multi-byte / invalid UTF-8 / syntax-like text / 20000 bytes; nil, empty and empty-string header-line and offer lists; signed, exponent and non-ASCII-digit q spellings and upper-case types for totality and membership only. Long headers: 31..1000 ranges of which one decides, at the end, in the middle or first, on one or many header lines, through all entry points. History dimension: every ordered pair (thorough: also every ordered triple of a 78-case sub-alphabet without handler steps) of a 198-case collision alphabet (header-line lists that share lines, same header and offers with different defaults, same header with different offers, the four entry points), plus the whole list forward and backward, each sequence executed in one process under its own neutral salt range and on one shared API instance per configuration; each step must give exactly what it gives when run alone. The sweeps are disjoint by construction (filters notInS1 / withParams, distinct entry points, renderings deduplicated by text), so no (entry point, header text, offers, default) tuple is evaluated twice", !budgetCut.Load())
 }
